@@ -10,7 +10,7 @@ RULE = ("tonality pairs/triples with degrees -30..30 (un-normalised on purpose) 
         "generator (incl. modifier sets) x modulating tonality (same mode 70%, other mode 30%) x octave shifts -4..4 x "
         "non-relative notes of every kind; non-trivial = non-zero degree/octave or k != 0; distinct = distinct canonical JSON")
 TRUSTED = []
-ASSUMPTIONS = ["chords carry a tonality (a chord built without one is an internal form outside the quantifier)"]
+ASSUMPTIONS = ["the model's chords carry a tonality; the library's bare degree symbols (no tonality, read in C major) are judged by the oracle stream tonality_less_chords"]
 
 
 def rand_ton(rng, normalised=False):
@@ -347,5 +347,63 @@ class RenderShift(Stream):
             yield dict(case, score=s)
 
 
+class TonalityLess(Stream):
+    """the library's bare degree symbols (I, V['6'] ...: chords without a tonality, read in C major) obey the same octave and modulation
+    arithmetic: chord.o(k) moves chord-relative notes by 12k, and the bare chord sounds like the chord % C major"""
+    name = "tonality_less_chords"
+    checker = None
+    pair = "property oracle: Chord(element, extension, octave) WITHOUT tonality: o(k), % t and the C major reading, through Chord.to_pitch"
+    quick, thorough = 600, 8000
+
+    def gen(self, rng, n):
+        for i in range(n):
+            c = rand_chord(rng, modifiers=0.2)
+            c.update(ton_none=True, tdeg=0, tmode="M", toct=0)
+            nt = rand_note(rng)
+            nt.pop("mode", None)                       # a per-note mode needs a tonality to change (AttributeError otherwise: C01 false alarm)
+            yield {"chord": c, "k": rng.choice([1, -1, 2, -2, 3]), "note": nt, "t": rand_ton(rng, True)}
+
+    def impl(self, case):
+        def pitch(f):
+            r = mlang.guarded(f)
+            return r if mlang.is_exc(r) else (None if r is None else int(r))
+        from musiclang import Tonality
+        c = mlang.mk_chord(case["chord"])
+        n = mlang.mk_note(case["note"])
+        k, t = case["k"], mk_ton(case["t"])
+        return {"p0": pitch(lambda: c.to_pitch(n)), "pk": pitch(lambda: c.o(k).to_pitch(n)), "pc": pitch(lambda: (c % Tonality(0)).to_pitch(n)),
+                "pkk": pitch(lambda: c.o(k).o(-k).to_pitch(n)), "pt": pitch(lambda: (c % t).to_pitch(n)),
+                "ptk": pitch(lambda: (c.o(k) % t).to_pitch(n)), "pset": pitch(lambda: c.set_octave(c.octave + k).to_pitch(n))}
+
+    def spec(self, case, r):
+        if mlang.is_exc(r["p0"]) or r["p0"] is None:
+            return None                                   # the note has no pitch on this chord at all (e.g. an accidental on a degree the table lacks)
+        if any(mlang.is_exc(v) for v in r.values()):
+            return {"sig": "tonality-less-raises", "msg": str({k: str(v) for k, v in r.items() if mlang.is_exc(v)})}
+        rel, k = case["note"]["kind"] in "shcb", case["k"]
+        if r["pc"] != r["p0"]:
+            return {"sig": "tonality-less:not-c-major", "msg": f"bare chord {r['p0']}, chord % C major {r['pc']}"}
+        for key, lab in (("pk", "o(k)"), ("pset", "set_octave")):
+            if r[key] != r["p0"] + (12 * k if rel else 0):
+                return {"sig": f"tonality-less:chord-octave:{case['note']['kind']}", "msg": f"{lab} with k={k}: {r['p0']} -> {r[key]}"}
+        if r["pkk"] != r["p0"]:
+            return {"sig": "tonality-less:octave-not-inverse", "msg": f"o(k).o(-k): {r['p0']} -> {r['pkk']}"}
+        if r["ptk"] != r["pt"] + (12 * k if rel else 0):
+            return {"sig": "tonality-less:octave-then-modulate", "msg": f"(c.o({k}) % t) {r['ptk']} vs (c % t) {r['pt']}"}
+        return None
+
+    def hist_keys(self, case, r):
+        return ["kind=" + case["note"]["kind"], "fig=" + case["chord"]["fig"]]
+
+    def shrink(self, case):
+        c = case["chord"]
+        for key in ("repl", "adds", "rems"):
+            if c.get(key):
+                yield dict(case, chord={k2: v for k2, v in c.items() if k2 != key})
+        for key, val in (("coct", 0), ("elem", 0), ("fig", "")):
+            if c.get(key) != val:
+                yield dict(case, chord=dict(c, **{key: val}))
+
+
 def streams():
-    return [TonAlgebra(), Modulate(), Invariance(), RenderShift()]
+    return [TonAlgebra(), Modulate(), Invariance(), RenderShift(), TonalityLess()]
